@@ -45,6 +45,10 @@ func init() {
 			checkMemoryStoreAppend(c, p, "C10.R6")
 			checkAppendBinds(c, ps, "C10.R6")
 			checkBatchedStream(c, ps, "C10.R6")
+			checkTimestampLayout(c, pd, "C10.R6")
+			checkLimitUses(c, p, PkgBus, "MemoryStore", "C10.R6")
+			checkLimitUses(c, ps, PkgSQLite, "SQLiteStore", "C10.R6")
+			checkLimitUses(c, pd, PkgDurable, "Store", "C10.R6")
 			c.Assume = append(c.Assume, "SQLite's AUTOINCREMENT and ORDER BY semantics", "the durable-streams protocol's offsets sort in append order", "database/sql stores and returns time.Time and []byte values faithfully (not decided; a probe showed Read failing on timestamps in unnamed fixed zones)")
 		},
 	})
@@ -68,6 +72,8 @@ func init() {
 			checkIterProtocol(c, p, PkgBus, "MemoryStore", "C11.R3")
 			checkIterProtocol(c, ps, PkgSQLite, "SQLiteStore", "C11.R3")
 			checkBatchedStream(c, ps, "C11.R3")
+			checkMemoryStreamPolls(c, p, "C11.R3")
+			checkMaterializerReplay(c, p, "C11.R2")
 			checkReplayReadOnly(c, p, R, "C11.R4")
 			checkReadNextOffset(c, pd, PkgDurable, "Store", "C11.R5")
 			checkReadNextOffset(c, p, PkgBus, "MemoryStore", "C11.R5")
